@@ -754,7 +754,33 @@ def c08(ctx):
         fut = [i for i, (n, t) in enumerate(leaves) if 'SyncFutureState' in t]
         snd = [i for i, (n, t) in enumerate(leaves) if 'oneshot::Sender' in t]
         names = [n for n, t in leaves]
-        if len(fut) == 1 and len(snd) == 1 and fut[0] < snd[0] and not drops_in_the_way:
+        # every field that can hold the caller's future or its creating closure (its type mentions a type parameter of SyncFuture)
+        gparams = [g_['name'] for g_ in adt.get('generics', []) if g_.get('kind') != 'lifetime' and not g_['name'].startswith('<')]
+        import re as _re
+        holders = [i for i, (n, t) in enumerate(leaves) if any(_re.search(r'(?<![A-Za-z0-9_])%s(?![A-Za-z0-9_])' % _re.escape(gp), t) for gp in gparams)]
+        late = [names[i] for i in holders if snd and i > snd[0]]
+        own_drop_ok = None
+        if drops_in_the_way == ['desync::SyncFuture'] and len(snd) == 1 and not late:
+            # an explicit destructor: it may send the completion itself, but only after it has emptied every holder of the caller's future
+            dfn = F.fn('<desync::SyncFuture as core::ops::drop::Drop>::drop') or F.fn('desync::SyncFuture::drop')
+            if dfn is not None:
+                from .rules_lw import FieldUse as _FU
+                u = _FU(dfn, 'desync::SyncFuture')
+                sname = names[snd[0]].split('.')[0]
+                touch = [bb for (bb, m_, t_) in u.calls.get(sname, [])] + [bb for (bb, i_) in u.reads.get(sname, [])]
+                dom_ = dfn.dominators()
+                cleared = True
+                for i in holders:
+                    hname = names[i].split('.')[0]
+                    ass = [(bb, i_) for (bb, i_, val) in u.assigns.get(hname, []) if val[0] == 'agg' and not val[3]]
+                    if not ass or not touch or not all(any(bb == tb or bb in dom_.get(tb, set()) for (bb, i_) in ass) for tb in touch):
+                        cleared = False
+                own_drop_ok = cleared and bool(touch)
+        if len(fut) == 1 and len(snd) == 1 and fut[0] < snd[0] and not late and own_drop_ok:
+            out.append(ok(R, key, 'SyncFuture has its own destructor: it empties every field that can hold the caller\'s future or closure (%s) before it touches the completion sender' % ', '.join(names[i] for i in holders)))
+        elif late and not drops_in_the_way and len(snd) == 1:
+            out.append(bad(R, key, 'a field that can hold the caller\'s future or closure (%s) is declared after the completion sender (%s): it is destroyed after the queue was released' % (', '.join(late), names[snd[0]])))
+        elif len(fut) == 1 and len(snd) == 1 and fut[0] < snd[0] and not drops_in_the_way:
             out.append(ok(R, key, 'fields drop in declaration order: the user future (%s) before the completion sender (%s); no Drop impl interferes' % (names[fut[0]], names[snd[0]])))
         elif len(fut) != 1 or len(snd) != 1:
             out.append(undecided(R, key, 'the state and the completion sender were not found among the fields %s' % names))
